@@ -990,6 +990,9 @@ func (g *Gen) worldAvailable(name string) bool {
 	if wc == nil {
 		return false
 	}
+	if wc.Theory != "" && !g.uses[wc.Theory] {
+		return false
+	}
 	for _, m := range sortNameRe.FindAllString(wc.Sort, -1) {
 		if _, ok := g.sorts.structs[m]; ok {
 			continue
